@@ -42,7 +42,7 @@ type C16Case struct {
 
 func c16GenBox(t *rapid.T, depth int, budget *int, many bool) C16Box {
 	*budget--
-	b := C16Box{Kind: rapid.SampledFrom([]string{"block", "block", "block", "float", "iblock"}).Draw(t, "kind")}
+	b := C16Box{Kind: rapid.SampledFrom([]string{"block", "block", "block", "float", "iblock", "block", "block", "block", "float", "iblock", "table"}).Draw(t, "kind")}
 	pz := rapid.IntRange(0, 9).Draw(t, "pos")
 	if many {
 		pz = rapid.IntRange(4, 9).Draw(t, "posmany")
@@ -71,6 +71,13 @@ func c16GenBox(t *rapid.T, depth int, budget *int, many bool) C16Box {
 		}
 	}
 	b.Outline = rapid.IntRange(0, 3).Draw(t, "outline") == 0
+	if b.Kind == "table" {
+		// a leaf without overflow: overflow does not clip a table like a block container, and the own
+		// background of a table that is a stacking context is painted by its table box, a child of the wrapper
+		// that is the context (negative z-index descendants come out below it: observed, not judged here)
+		b.Overflow = false
+		return b
+	}
 	if depth > 0 && !many {
 		for i, n := 0, rapid.IntRange(0, 3).Draw(t, "nkids"); i < n && *budget > 0; i++ {
 			b.Kids = append(b.Kids, c16GenBox(t, depth-1, budget, false))
@@ -132,6 +139,9 @@ func c16HTML(c *C16Case) (string, []*c16Node) {
 			st += "float:left;width:60px;"
 		case "iblock":
 			st += "display:inline-block;width:60px;"
+		case "table":
+			// (a block-level box whose element generates a wrapper around its principal box)
+			st += "display:table;width:120px;"
 		}
 		if b.Pos != "" {
 			st += "position:" + b.Pos + ";"
